@@ -2,7 +2,7 @@
    allocates only the deep-copy skeleton. *)
 Require Import EV.Base.Tac EV.Base.Bytes EV.Base.Res EV.Base.ListX.
 Require Import EV.Model.Arith64 EV.Model.Types EV.Model.Layout EV.Model.Ser EV.Model.Deser EV.Model.Header EV.Model.Typing EV.Model.Need EV.Model.Derive.
-Require Import EV.Proofs.HeaderRT EV.Proofs.DeriveP EV.Proofs.PlaceP.
+Require Import EV.Proofs.HeaderRT EV.Proofs.DeriveP EV.Proofs.PlaceP EV.Proofs.SkelP.
 
 (* For EVERY buffer (not only serialized ones), type, base address and result: every borrowed part
    of an eps-copy result ([ref_at], Model/Derive.v) lies inside the buffer, has exactly the byte
@@ -42,6 +42,29 @@ Theorem C03_allocation_depends_on_skeleton_only :
   forall (t : ty) (e e' : val), skel e = skel e' -> alloc_eps t e = alloc_eps t e'.
 Proof. exact alloc_eps_same_skeleton. Qed.
 
+(* At the level of the serialized values.  [skel_of t v] (Proofs/SkelP.v) is the value with every
+   sequence that eps-copy returns as a borrowed slice, str or reference forgotten (length and
+   content): two values with the same skeleton -- whatever the lengths and contents of their
+   borrowed sequences, whatever the padding junk and the (aligned) buffer addresses -- make
+   eps-copy deserialization request exactly the same allocations. *)
+Theorem C03_allocation_independent_of_borrowed_lengths :
+  forall (base base' : N) (pf pf' : padfill) (h : hdr) (t : ty) (v v' : val) (evs evs' : list event),
+    hdr_ok h ->
+    wf t = true -> units_pow2 t = true -> units_cover t = true -> deserializable t = true ->
+    wt t v = true -> exhausted_in t v = false -> wt t v' = true -> exhausted_in t v' = false ->
+    ser_top pf h t v = (evs, SDone) -> ser_top pf' h t v' = (evs', SDone) ->
+    base mod max_unit t = 0 -> base' mod max_unit t = 0 ->
+    skel_of t v = skel_of t v' ->
+    exists e e', deser_eps_top base h t (bytes_of evs) = Ok (e, [], evs_len evs) /\
+                 deser_eps_top base' h t (bytes_of evs') = Ok (e', [], evs_len evs') /\
+                 alloc_eps t e = alloc_eps t e'.
+Proof. exact alloc_independent_of_borrowed_lengths. Qed.
+
+(* the skeleton of any typed eps-copy result is the skeleton of the value it describes *)
+Theorem C03_result_skeleton_is_value_skeleton :
+  forall t base buf e, eps_ok base buf (dty_of t) e -> skel e = skel_of t (erase e).
+Proof. exact skel_of_eps_result. Qed.
+
 (* Non-vacuity: a structure with a borrowed slice, a fully copied vector, a borrowed string, a
    vector of borrowed strings and a reference to a zero-copy struct. *)
 Definition c3_i (n : name) (zc : bool) : adt_info :=
@@ -66,7 +89,7 @@ Example C03_example :
   | Some (r2, b2, a2, s2), Some (r9, b9, a9, s9) =>
       r2 = [(48, 16); (82, 2); (100, 2); (110, 0); (112, 8)] /\ c3_sub r2 b2 = true /\
       r9 = [(48, 72); (138, 9); (163, 9); (180, 0); (180, 8)] /\ c3_sub r9 b9 = true /\
-      s2 = s9 /\ a2 = [1; 2] /\ a9 = [1; 2]
+      s2 = s9 /\ a2 = [1; 2] /\ a9 = [1; 2] /\ skel_of c3_t (c3_v 2) = skel_of c3_t (c3_v 9) /\ s2 = skel_of c3_t (c3_v 2)
   | _, _ => False
   end.
 Proof. vm_compute. repeat split. Qed.
@@ -75,3 +98,5 @@ Print Assumptions C03_borrowed_parts_in_bounds_aligned_exact.
 Print Assumptions C03_in_context.
 Print Assumptions C03_references_point_at_written_blocks.
 Print Assumptions C03_allocation_depends_on_skeleton_only.
+Print Assumptions C03_allocation_independent_of_borrowed_lengths.
+Print Assumptions C03_result_skeleton_is_value_skeleton.
